@@ -84,6 +84,17 @@ block_builder_current_size_estimate(struct block_builder *b)
 	return (ubuf_bytes(b->buf) + uint64_vec_bytes(b->restarts) / 2 + sizeof(uint32_t));
 }
 
+size_t
+block_builder_size_estimate_with(struct block_builder *b, size_t len_entry)
+{
+	/* size of the finished block if len_entry more bytes of entries were added:
+	 * the restart array switches to 64-bit offsets once the entries exceed UINT32_MAX */
+	const size_t bytes = ubuf_bytes(b->buf) + len_entry;
+	const size_t width = (bytes > UINT32_MAX) ? sizeof(uint64_t) : sizeof(uint32_t);
+
+	return (bytes + uint64_vec_size(b->restarts) * width + sizeof(uint32_t));
+}
+
 void
 block_builder_finish(struct block_builder *b, uint8_t **buf, size_t *bufsz)
 {
